@@ -101,6 +101,9 @@ func JsonToSexp(json []byte, env *Zlisp) (Sexp, error) {
 
 // sexp -> json
 func SexpToJson(exp Sexp) string {
+	if exp == SexpNull {
+		return "null" // the printed form "nil" is not JSON
+	}
 	switch e := exp.(type) {
 	case *SexpHash:
 		return e.jsonHashHelper()
